@@ -140,7 +140,7 @@ func VerifWrSeq() {
 	sink := &vwSink{}
 	w := vwNew(setting, sink, tinyW)
 	big := vwBig(setting, tinyW)
-	data := vwData(2*big + 64)
+	data := vwData(K*big + 64)
 	pos := 0
 	var written []byte
 	closed := false
@@ -238,7 +238,7 @@ func VerifWrFail() {
 	sink := &vwSink{failAt: verifrt.Concretize(k), err: fault}
 	w := vwNew(setting, sink, tinyW)
 	big := vwBig(setting, tinyW)
-	data := vwData(2*big + 64)
+	data := vwData(K*big + 64)
 	pos := 0
 	var written []byte
 	closedOK := false
@@ -293,7 +293,7 @@ func VerifWrReset() {
 	K1 := verifrt.Param("K1")
 	K2 := verifrt.Param("K2")
 	big := vwBig(setting, tinyW)
-	data := vwData(3*big + 64)
+	data := vwData((K1+K2)*big + 64)
 	old := &vwSink{}
 	if verifrt.Pick("oldfails", 2) == 1 {
 		old.failAt = 1
